@@ -280,7 +280,7 @@ def run_c08(run_, rng, tier):
             s0["opts"]["ro"] = "fail"
         scns.append(s0)
     import wide
-    scns += [wide.wide_scenario(rng) for _ in range(150 if q else 3000)]
+    scns += [wide.wide_scenario(rng) for _ in range(300 if q else 4000)]
     t0 = time.time()
     results = run_many(exe, scns, timeout=10)
     bad = []
